@@ -65,7 +65,10 @@ namespace detail
 	// mod
 	GLM_FUNC_QUALIFIER int mod(int x, int y)
 	{
-		return ((x % y) + y) % y;
+		int r = x % y;
+		if(r != 0 && ((r < 0) != (y < 0)))
+			r += y; // (x % y) + y overflows for |y| > 2^30
+		return r;
 	}
 
 	// factorial (!12 max, integer only)
